@@ -118,16 +118,28 @@ Theorem C34_mask_to_offset_ranges : forall (selected : N -> bool) q, rseq_wf q =
 Proof. exact rs_mask_to_offset_ranges_ok. Qed.
 Print Assumptions C34_mask_to_offset_ranges.
 
-(* 5. RowIdIndex::get on a chunk list with the invariants RowIdIndex::new is meant to establish
-      (well-formed segment pairs of equal length, ids inside the chunk range, pairwise disjoint ranges):
-      get id = Some addr  <->  (id, addr) is one of the indexed pairs.
-      PARTIAL: that index_new establishes these invariants and that the pairs are exactly the live rows of the
-      fragments is NOT proved here (it is checked by the exhaustive/random correspondence and the
-      brute-force oracle); it is false in the class Known_C34_index_overlapping_ranges (F18, below). *)
-Theorem C34_index_get_partial : forall idx, Forall chunk_ok idx -> disjoint_chunks idx ->
+(* 5. RowIdIndex. [frag_live f] = (row id, fragment_id * 2^32 + offset) for every non-deleted row offset of f.
+      C34_index_get: the lookup is exact on any chunk list with pairwise disjoint ranges and well-formed
+      (ids, addresses) segment pairs.
+      C34_index_partial: for EVERY list of fragments (any segment layout, any deletion vectors) with unique
+      in-domain ids per fragment and addresses below 2^62 whose chunk ranges - the (min, max) of the live ids of
+      each segment - do not overlap one another, RowIdIndex::new succeeds and
+          get id = Some addr  <->  (id, addr) is a live row of some fragment.
+      PARTIAL: layouts where chunk ranges overlap but tile their union exactly (e.g. ids dealt alternately to
+      two fragments; the merge_overlapping_chunks path) are not covered by the theorem - they are checked by the
+      exhaustive/random correspondence and the brute-force oracle only; layouts that overlap without tiling are
+      the known-finding class Known_C34_index_overlapping_ranges (F18, refuted below). *)
+Theorem C34_index_get : forall idx, Forall chunk_ok idx -> disjoint_chunks idx ->
   forall id addr, index_get idx id = Some addr <-> In (id, addr) (index_pairs idx).
 Proof. exact index_get_spec. Qed.
-Print Assumptions C34_index_get_partial.
+Print Assumptions C34_index_get.
+
+Theorem C34_index_partial : forall frags chunks, Forall frag_ok frags ->
+  decompose_all frags = Ok chunks -> asc_disjoint (processing_order chunks) = true ->
+  exists idx, index_new frags = Ok idx /\
+    forall id addr, index_get idx id = Some addr <-> In (id, addr) (flat_map frag_live frags).
+Proof. exact index_new_no_overlap. Qed.
+Print Assumptions C34_index_partial.
 
 (* F18: fragment 0 keeps ids {1,2,4,5,8}, an update carried id 7 into fragment 1: RowIdIndex::new panics. *)
 Theorem C34_index_overlapping_ranges_refuted : exists frags,
@@ -167,6 +179,14 @@ Example C34_nonvacuous_index :
    Ok (map (index_get idx) [10; 11; 12; 20; 25; 26]))
   = Ok [Some (3 * two32); None; Some (3 * two32 + 2); Some (5 * two32); Some (5 * two32 + 1); None].
 Proof. vm_compute. reflexivity. Qed.
+
+Example C34_nonvacuous_index_hyps :
+  let frags := [ (3, [SRange 10 13; SSorted (EU16 40 [0; 9])], [1]); (5, [SSorted (EU16 20 [0; 5])], []) ] in
+  exists chunks, decompose_all frags = Ok chunks /\ asc_disjoint (processing_order chunks) = true
+                 /\ length chunks = 3%nat
+                 /\ flat_map frag_live frags = [(10, 3 * two32); (12, 3 * two32 + 2); (40, 3 * two32 + 3);
+                                                (49, 3 * two32 + 4); (20, 5 * two32); (25, 5 * two32 + 1)].
+Proof. eexists. split; [vm_compute; reflexivity|]. split; [vm_compute; reflexivity|]. split; vm_compute; reflexivity. Qed.
 
 (* exhaustive small-universe sweep of the candidate statements on the model (a test, not the theorem):
    every duplicate-free list over ids 0..4 of length <= 3 - from_slice holds it, and every position mask /
